@@ -9,7 +9,7 @@ from .lp import DecRoConstr
 from .lp import PiecewiseConvex, PWConstr, ExpPWConstr, DecLMIConstr
 from .lp import Scen
 from .lp import Solution, def_sol
-from .subroutines import event_dict
+from .subroutines import event_dict, flat
 import numpy as np
 import pandas as pd
 import scipy.sparse as sp
@@ -1030,6 +1030,7 @@ class Ambiguity:
         self.update = True
         self.model.pupdate = True
         self.model.dupdate = True
+        args = flat(args)
         for arg in args:
             if arg.model is not self.model.pro_model:
                 raise ValueError('Constraints are not defined for the ' +
